@@ -129,7 +129,8 @@ class _MockMOFWBEMConnection(ResolverMixin, BaseRepositoryConnection):
                             LocalOnly=False)
 
         cls_key_properties = [p for p, v in cls.properties.items()
-                              if 'key' in v.qualifiers]
+                              if 'key' in v.qualifiers and
+                              v.qualifiers['key'].value]
 
         # Validate all key properties are in instance
         for pname in cls_key_properties:
